@@ -1351,6 +1351,8 @@ fn inventory(file: &syn::File, src: &Src, it: &Item) -> ItemOut {
             syn::visit::visit_item_mod(self, m);
         }
         fn visit_item_impl(&mut self, im: &'ast syn::ItemImpl) {
+            // impls compiled only for tests or for the verification hook are not part of the crate as built
+            if im.attrs.iter().any(|a| { let t = norm(self.src.slice(a.span())); t.contains("cfg(test)") || t.contains("cfg(kani)") }) { return; }
             let ty = type_last_seg(&im.self_ty);
             let tr = im.trait_.as_ref().map(|(_, p, _)| last_seg(p)).unwrap_or_default();
             self.cur.push(if tr.is_empty() { ty } else { format!("<{ty} as {tr}>") });
